@@ -151,7 +151,7 @@ pub fn run(a: &Args) {
     let thorough = a.tier == "thorough";
     // ---- files that fail at each stage, and valid ones
     let mut files: Vec<(String, Vec<u8>, Option<usize>)> = vec![];
-    for k in 0..(if thorough { 200 } else { 30 }) {
+    for k in 0..(if thorough { 80 } else { 30 }) {
         let b = valid_file(&mut rng, &GenOpts { maxw: 6, maxh: 5, anc: k % 2 == 0, animated: Some(k % 2 == 1) });
         files.push((b.name.clone(), b.bytes.clone(), Some(b.frames.len())));
         for _ in 0..3 {
@@ -194,12 +194,13 @@ pub fn run(a: &Args) {
         }
         files.push((format!("{}+trailing", b.name), bytes, Some(b.frames.len())));
     }
-    for (name, bytes, total) in &files {
+    for (file_index, (name, bytes, total)) in files.iter().enumerate() {
         let kind = if name.contains('~') || total.is_none() { "failing-or-mutated" } else { "valid" };
         o.count(&format!("files.{}", kind));
         // sequences continuing well past the first terminal event: exhaustive short tails after a drain, random longer ones
         let heads: Vec<Vec<Op>> = vec![vec![Op::Frame; 6], vec![Op::Row; 40], vec![Op::Finish], vec![Op::FrameInfo; 5], vec![Op::ReadRow, Op::Frame, Op::Frame, Op::Frame, Op::Frame, Op::Frame], vec![Op::IRow, Op::Finish]];
-        let tail_len = if thorough { 4 } else { 3 };
+        // thorough: every tail of length 3 for every file, every tail of length 4 for every 12th file (12 M sequences otherwise)
+        let tail_len = if thorough && file_index % 12 == 0 { 4 } else { 3 };
         for (hi, head) in heads.iter().enumerate() {
             for code in 0..7u64.pow(tail_len as u32) {
                 if !thorough && (code + hi as u64) % 3 != 0 {
